@@ -19,7 +19,8 @@ func init() {
 			"R15.3 no printer path replays the same token field twice, and the replay method writes each element once; " +
 			"R15.4 every buffer write of the replay method is reachable only with PrettyPrint true, and LeadingComments is read in ast/compiler/debug only as the argument of the replay method; " +
 			"R15.5 a replay that wrote anything ends by forcing a pending line break, and the pending buffer is cleared only by the flush, by WriteNewline (which re-establishes one) and by the replay method itself; " +
-			"R15.6 the trivia skipper resets the list on entry, appends one empty element per line break in whitespace and one element per `//` comment consisting of exactly the bytes it advanced over; every token constructor copies the list. " +
+			"R15.6 the trivia skipper resets the list on entry, appends one empty element per line break in whitespace and one element per `//` comment consisting of exactly the bytes it advanced over; every token constructor copies the list; " +
+			"R15.7 a reading of the output buffer's emptiness (which suppresses the separator in front of a replayed entry) is never branched on after something was written since it was taken. " +
 			"Textual equality/placement in the output is not compared.",
 		notDecided: []string{"textual equality and relative placement of comments in the output", "blank-line preservation as a count", "indentation of replayed comments"},
 	})
